@@ -24,6 +24,9 @@ def install(E):
         if isinstance(x, Bundle) or isinstance(y, Bundle):
             return bundle_op(s, st, op, x, y, w)
         if isinstance(x, Ptr) or isinstance(y, Ptr) or isinstance(x, tuple) or isinstance(y, tuple):
+            if op == 'sub' and isinstance(x, Ptr) and isinstance(y, Ptr):
+                if x.obj != y.obj: raise s.fail(st, 'ub', 'subtraction of pointers into different objects')
+                return binop(s, st, 'sub', x.off, y.off, w, flags)
             raise EngineError('integer arithmetic on pointer value (%s)' % op)
         cx = isinstance(x, int); cy = isinstance(y, int)
         if cx and cy:
